@@ -1,7 +1,12 @@
 /-
   Invariant + helper lemmas for the monotonic buffer resource model (property C06).
-  Geo.lean   segments, disjointness, the abstract regions/items/free-range configuration
-  Inv.lean   component predicates, the invariant, the fast path
-  (this file) aggregates them
+  Geo.lean      segments, disjointness, the abstract regions / items / free-range configuration
+  Inv.lean      component predicates, the invariant, the fast path
+  Alloc.lean    one lemma per allocation path, `allocate` preserves the invariant
+  Step.lean     register_destructor, release (state), one resource step, two resources + move
+  Release.lean  the event trace of release()
+  Blocks.lean   what the invariant says about a block just handed out; stability
+  (this file)   aggregates them
 -/
-import Babylon.Arena.Inv
+import Babylon.Arena.Release
+import Babylon.Arena.Blocks
